@@ -1336,7 +1336,13 @@ static void runLayout(const std::string &shape, bool full, uint64_t i, Ctx &c)
     Graph g = layoutGraph(shapeOf(shape), full, i);
     Verdict v = judge(g, false);
     if (!v.rootHasImports || !v.connected) { c.outcome(!v.rootHasImports ? "layout:skipped:no-imports-in-root" : "layout:skipped:a-file-is-unreachable"); return; }
-    if (!full && (v.impCycleReachable || v.crashProne)) { c.outcome("layout:skipped:cyclic-graph-(run-by-the-full-layout-families)"); return; } // thousands of stack overflows: the reduced family keeps to the acyclic side
+    // Cyclic graphs end in a stack overflow that re-reads a file at every level (20-50 ms each, tens of thousands of them): the reduced family
+    // keeps to the acyclic side, the full family runs them with plain hrefs and the root model in ./ (16 of the 96 layouts per graph); the
+    // smallest shape (layouts-g2, 4 entities) runs everything.
+    bool cyclic = v.impCycleReachable || v.crashProne;
+    size_t entities = 0;
+    for (auto &fs : g.f) entities += fs.c.size() + fs.u.size();
+    if (cyclic && entities > 4 && (!full || g.hrefStyle != 0 || g.dirOf[0] != 0)) { c.outcome("layout:skipped:cyclic-graph-outside-the-reduced-layout-set"); return; }
     bool flat = true;
     for (int d : g.dirOf) if (d) flat = false;
     std::string situation = std::string("directory-layout:hrefs-") + HREF_STYLE[g.hrefStyle];
